@@ -127,6 +127,12 @@ def run(ctx):
         filt = bool(k % 2 == 0)
         if not filt:
             prod["Pressure"] = prod["Pressure"].fillna(1500.0)
+        # the Days column is not read by the fit (time is the row count of the retained rows): a producing day whose date is missing
+        # from the record is still a producing day
+        days_missing = k % 4 in (0, 3)
+        if days_missing:
+            good = np.nonzero((gas > 0) & ~np.isnan(np.asarray(prod["Pressure"], float)))[0]
+            prod.loc[prod.index[good[len(good) // 2]], "Days"] = np.nan
         p_imax, inplace_max = float(rng.uniform(9000, 11500)), float(rng.uniform(2000, 1e5))
         window = [None, 1, 3][k % 3]
         budget = int(rng.choice([1, 5, 20, 40]))
@@ -151,7 +157,7 @@ def run(ctx):
         nk = len(kept)
         fit = {nm: float(result.params[nm].value) for nm in ("tau", "M", "p_initial")}
         lim = dict(tau=(30.0, 2.0 * (nk - 1)), M=(float(cum[nk - 2]), inplace_max), p_initial=(float(np.max(pfk)), p_imax))
-        inp = dict(days=nd, kept=nk, filter=filt, window=window, n_iter=budget, limits=lim, row_labels=labels)
+        inp = dict(days=nd, kept=nk, filter=filt, window=window, n_iter=budget, limits=lim, row_labels=labels, a_producing_day_has_no_date=bool(days_missing))
         for nm in fit:
             lo, hi = lim[nm]
             dlo, dhi = float(result.params[nm].min), float(result.params[nm].max)
